@@ -539,6 +539,48 @@ Section Agreement.
     unfold Keys.settled. cbn. ands; try reflexivity. rewrite dh_comm. reflexivity.
   Qed.
 
+  (* the recorded finding (a), exactly: the announcement was processed, its reply lost.  The client keeps
+     keysNext and the old key; the NEXT exchange is garbled (each handler sees the payload XORed with
+     old and new share), and at its end the two ends are settled again on the new share: it HEALS
+     after one further exchange.  (A client that discarded keysNext instead would never catch up.) *)
+  Theorem reply_lost_after_processing_heals : forall s k q0 p q,
+    settled s ->
+    let lost := run [RekeySend k; RekeyRecv q0; ReplyLost] s in
+    let s' := run [DataSend p; RekeyRecv q; ReplyRecv] lost in
+    let old := c_share (cl s) in
+    let new := fill_shared old (dh k (pub (s_priv (sv s)))) in
+    (c_next (cl lost) = Some k /\ c_share (cl lost) = old /\ s_share (sv lost) = new /\ waiting lost = false) /\
+    settled s' /\ c_share (cl s') = new /\ s_share (sv s') = new /\ c_priv (cl s') = k /\
+    s_seen s' = deliver (xor_op (xor_op p old) new) (s_seen s) /\
+    c_seen s' = deliver (xor_op (xor_op q new) old) (c_seen s) /\
+    (forall p2 q2, let s'' := run [DataSend p2; RekeyRecv q2; ReplyRecv] s' in
+                   s_seen s'' = deliver p2 (s_seen s') /\ c_seen s'' = deliver q2 (c_seen s') /\ settled s'').
+  Proof.
+    intros [[cp cpb cs cn] [sr sp ss] up dn w cseen sseen ch] k q0 p q S.
+    destruct S as [W [U [D [R [N [A [P C]]]]]]].
+    cbn [cl sv upw dnw waiting c_next c_share c_pub c_priv s_reg s_priv s_share chn] in *.
+    subst w up dn sr cn ss cpb ch. cbv zeta.
+    set (new := fill_shared cs (dh k (pub sp))).
+    assert (Hn : fill_shared cs (dh sp (pub k)) = new) by (unfold new; rewrite dh_comm; reflexivity).
+    match goal with |- context [run [RekeySend k; RekeyRecv q0; ReplyLost] ?s0] =>
+      assert (E1 : run [RekeySend k; RekeyRecv q0; ReplyLost] s0 =
+                   mkSt (mkC cp (pub sp) cs (Some k)) (mkS true sp new) None None false cseen sseen None)
+    end.
+    { unfold Keys.run. cbn [fold_left]. cbn. unfold srv_handle. cbn. rewrite zlist_eqb_refl. cbn. rewrite Hn. reflexivity. }
+    rewrite E1.
+    match goal with |- context [run [DataSend p; RekeyRecv q; ReplyRecv] ?s0] =>
+      assert (E2 : run [DataSend p; RekeyRecv q; ReplyRecv] s0 =
+                   mkSt (mkC k (pub sp) new None) (mkS true sp new) None None false
+                        (deliver (xor_op (xor_op q new) cs) cseen) (deliver (xor_op (xor_op p cs) new) sseen) None)
+    end.
+    { unfold Keys.run. cbn [fold_left]. cbn. unfold srv_handle. cbn. unfold key_check_sync. cbn. reflexivity. }
+    rewrite E2. cbn. ands; try reflexivity.
+    - unfold Keys.settled. cbn. ands; reflexivity.
+    - intros p2 q2. unfold Keys.run. cbn. unfold srv_handle. cbn. unfold key_check_sync. cbn.
+      Local Transparent xor_op. rewrite !xor_involution. Local Opaque xor_op.
+      ands; try reflexivity. unfold Keys.settled. cbn. ands; reflexivity.
+  Qed.
+
   (* a failed write of the announcement leaves both ends exactly where they were *)
   Theorem write_fail_reverts : forall s k,
     waiting s = false -> chn s = None -> c_next (cl s) = None ->
